@@ -1,6 +1,8 @@
 use rscel_macro::dispatch;
 
 pub use methods::dispatch as get_day_of_year;
+#[cfg(feature = "verif_hooks")]
+pub use methods::verif_inner;
 
 #[dispatch]
 mod methods {
@@ -16,5 +18,11 @@ mod methods {
 
     fn get_day_of_year(this: DateTime<Utc>, timezone: String) -> CelResult<i64> {
         Ok(get_adjusted_datetime(this, timezone)?.ordinal0() as i64)
+    }
+
+    /// Forwarders to the typed overloads, for the external verification harness.
+    #[cfg(feature = "verif_hooks")]
+    pub mod verif_inner {
+        pub fn utc(this: chrono::DateTime<chrono::Utc>) -> i64 { super::get_day_of_year_zti(this) }
     }
 }
